@@ -31,24 +31,31 @@ _p('C02', 'proof', 'Raw parser returns the same pointer; op_from_map returns Non
 _p('C03', 'proof', 'is_valid_len / can_accept_unary against the spec (Verus, all usize); every table entry accepts exactly the documented '
    'arities for ALL n (Kani, loop-free over symbolic usize, on the compiled tables); op_from_map wrapping/arity (Kani, bounded operand count).')
 _p('C04', 'other', 'Contract: the parser is applied to rule-text nodes only. Kani harnesses replace Parsed::from_value by an asserting stub '
-   '(ghost registry of rule-text addresses).')
-_p('C05', 'other', 'if/and/or: result and evaluation log equal the spec over operand outcome classes; evaluator abstracted by contract stubs. Bounded operand count.')
+   '(ghost registry of rule-text addresses): var never parses its (already evaluated) default; or/and/if parse registered operand nodes only and evaluate each at most once.',
+   ['all/some over computed collections, map/filter/reduce elements and Operation::evaluate with operands: harnesses exist but do not finish in CBMC (DESIGN.md 0.4)'])
+_p('C05', 'other', 'if/and/or: result and evaluation log equal the spec over operand outcome classes (error / fresh value / borrowed value, truthiness symbolic); evaluator abstracted by contract stubs; ?: is the same function as if (complete). Bounded operand count (0..3 quick, ..5 thorough).')
 _p('C06', 'proof', 'truthy equals the JsonLogic table: Verus for null/bool/array/object of any size; Kani for every JSON number and strings.')
 _p('C07', 'proof', 'abstract_eq equals ECMA-262 7.2.14 per kind pair (Kani complete over all JSON numbers/bools; string contents by contract stub); symmetry; != is negation.')
 _p('C08', 'proof', 'strict_eq table per kind pair, !== negation, === implies ==, symmetry (Kani complete on scalars).')
 _p('C09', 'proof', 'abstract_lt/gt/lte/gte equal the ES relational spec per kind pair; duality; compare() 2/3-operand form (Verus, verbatim).')
 _p('C10', 'proof', 'to_number_value exact for all 2^64 doubles; binary arithmetic helpers exact with to_number abstracted by contract; folds bounded.')
-_p('C11', 'proof', 'get() negative-index contract (Verus, all slices, all i64); split_with_escape safety (Verus); get_key/var bounded shapes (Kani).')
+_p('C11', 'proof', 'get(): negative-index contract for all slices and all i64 (Verus, verbatim; Kani twin); split_with_escape cannot panic (Verus); var: default selection with the lookup by contract (Kani, bounded key kinds, every i64 integer key).',
+   ['get_key / get_str_key path descent and split_with_escape as a function: not under contract'])
 _p('C12', 'other', 'missing / missing_some over an abstract presence function (get_key by contract); bounded key count.')
-_p('C13', 'other', 'map/filter/reduce call pattern, scoping and order with the evaluator by contract; bounded collection size.')
-_p('C14', 'other', 'all/some spec with short-circuit log; none == !some (complete); bounded collection size.')
-_p('C15', 'other', 'merge splice law; in: dispatch and numeric membership; bounded shapes, number x number complete.')
-_p('C16', 'other', 'cat = concatenation of string forms (bounded operands); substr safety unbounded (Verus), output by character (bounded shapes).')
+_p('C13', 'other', 'map/filter: the collection operand is evaluated once against the outer data; a null collection is empty; other non-arrays and failing evaluations are errors (evaluator by contract).',
+   ['per-element behaviour of map/filter and all of reduce: not decided (DESIGN.md 0.4)'])
+_p('C14', 'proof', 'none == !some for every outcome of some (complete); all/some: empty and null collections are false, non-collections and failing collection evaluations are errors, a computed collection is evaluated once against the outer data (bounded shapes).',
+   ['per-element behaviour and short-circuit of all/some over non-empty collections: not decided (DESIGN.md 0.4)'])
+_p('C15', 'proof', 'in(n,[m]) == numeric equality for every pair of JSON numbers (complete); dispatch on the haystack kind (complete for null/bool/number/object haystacks); merge on bounded shapes.',
+   ['deep membership of containers (serde_json PartialEq) and str::contains are trusted', 'merge with several array operands: not decided'])
+_p('C16', 'proof', 'substr: no overflow / failed conversion for every string and every i64 (Verus, verbatim); substr output = the character slice of the statement for EVERY i64 start/length on abstract strings of 0..3 characters (Chars by contract, real Skip/Take/collect; bounded in the string length); cat = concatenation of string forms (bounded operands, to_string by contract).',
+   ['to_string itself (string forms of arrays/numbers) is not under contract'])
 
 
 # C01 (totality) is carried by obligations of many functions; its *quick* tier runs this curated subset of the Kani
 # obligations tagged C01 (every Verus unit tagged C01 always runs); the thorough tier runs all of them.
 QUICK_ONLY = {
+    'C04': r'^(C11\.var\..*|C05\.(or|and)\.2\.(NR|NE)|C05\.if\.(2\.NR|3\.NRN)|C05\.or\.1\.N|C04\.operation_evaluate\.0|C14\.(all|some)\.(litnull|cnull|litnum)\..*|C13\.(map|filter)\.(null|other)\..*)$',
     'C01': r'^(C10\.to_number_value\.exact|C01\.abstract_plus\..*|C11\.get\.all_i64|C10\.abstract_minus|C10\.abstract_(div|mod)\.errors|'
            r'C10\.to_negative|C10\.to_number\.(null|bool|num|str|arr)|C10\.parse_float\.(num|str|arr|true)|C06\.truthy\.(number|string0|string3)|'
            r'C02\.op_from_map\..*|C07\.abstract_eq\.(num_num|bool_str|num_arr|str_obj|null_num)|C08\.strict_eq\.(num_num|str_str|arr_obj)|'
@@ -57,8 +64,10 @@ QUICK_ONLY = {
 }
 
 # properties registered in MANIFEST.json (the others are listed under not_applicable with the reason below)
-CLAIMED = ['C02', 'C03', 'C06', 'C07', 'C08', 'C09', 'C10', 'C11']
-NOT_YET = {}
+CLAIMED = ['C01', 'C02', 'C03', 'C04', 'C05', 'C06', 'C07', 'C08', 'C09', 'C10', 'C11', 'C13', 'C14', 'C15', 'C16']
+NOT_YET = {
+    'C12': 'missing / missing_some fold over an array held in a Value; Kani cannot decide such iterations here (enum payloads lose constant len/ptr in its union encoding: > 900 s / memory cap even for the empty list) and Verus rejects the fold/closure bodies. The contract harnesses exist (kani/op__data.rs, tier=off) but nothing decides the property, so it is not claimed (DESIGN.md section 0.4). The missing_some defect was repaired (known_findings.txt).',
+}
 
 
 def assumption_scan(prop, results):
